@@ -7,8 +7,10 @@ contract (`k` distinct members of `pop`, `validPick`) and answers `none` when it
 also what happens in the Python (`ValueError: Cannot take a larger sample than population`) when the
 population is too small.  The accept bit `rng.random() < transition_prob` of `_mcmc_step` is an
 oracle `Bool` (the transition probability is floating-point code of the inner model).  The
-truncated-Poisson weights are an oracle list of naturals (zero allowed: "sometimes the sampled
-weights are zero due to numerical instabilities").
+quantiles `stats.poisson.ppf(p, lambd)` inside `sample_truncated_poisson` are an oracle list of
+naturals (zero allowed: `p` rounds to `P(X = 0)` for small means); the weight is
+`np.maximum(quantile, 1)` (`truncWeight`, the repair of D44), so no weight is zero.  The filter
+`np.where(weights > 0)` of `sample` is still modelled (`dropZeros`) and proved to drop nothing.
 
 Python sets are duplicate-free lists; set union / difference / intersection are `union`, `diff`,
 `inter`.  Answers are compared after sorting (`canon`). -/
@@ -227,14 +229,24 @@ def outputStage (cfg : Config) (ws : List Nat) (labels : Option (List Nat)) :
     (relabelAll labels (dropZeros (cfg.map canon) ws)).map mergeDup
   else none
 
+/-! ## `sample_truncated_poisson` (after the repair of D44) -/
+
+/-- `np.maximum(stats.poisson.ppf(p, lambd), 1.0)`: the quantile `q` computed by scipy is an oracle natural - it
+is 0 when `p = u + (1 - u) * exp(-lambd)` rounds to `P(X = 0)` (and a negative / infinite value of the
+unrepaired code is outside the naturals) -; a truncated-Poisson value is at least 1 -/
+def truncWeight (q : Nat) : Nat := max q 1
+/-- the weights of one sample: one truncated-Poisson draw per hyperedge of the chain state -/
+def truncWeights (qs : List Nat) : List Nat := qs.map truncWeight
+
 /-! ## whole runs -/
 
-/-- everything the sampler's own generator `self._rng` delivers during one `sample(...)` run -/
+/-- everything the sampler's own generator `self._rng` delivers during one `sample(...)` run; `quantiles`: per
+yielded sample, the Poisson quantiles computed from the uniforms `rng.random(E)` -/
 structure OwnTape where
   picks : List (List Nat)
   burn : List StepDraw
   thins : List (List StepDraw)
-  weights : List (List Nat)
+  quantiles : List (List Nat)
 
 def outputsOf : List Config → List (List Nat) → Option (List Nat) → Option (List (List (Hye × Nat)))
   | [], _, _ => some []
@@ -245,7 +257,7 @@ def outputsOf : List Config → List (List Nat) → Option (List Nat) → Option
 /-- chain + output stage from an initial configuration -/
 def sampleFromConfig (cfg fixed : Config) (labels : Option (List Nat)) (t : OwnTape) :
     Option (List (List (Hye × Nat))) :=
-  (mcmcRoutine cfg fixed t.burn t.thins).bind (fun ys => outputsOf ys t.weights labels)
+  (mcmcRoutine cfg fixed t.burn t.thins).bind (fun ys => outputsOf ys (t.quantiles.map truncWeights) labels)
 
 /-- position of a label in the encoder's classes (`mapping.transform`) -/
 def transform (labels : List Nat) (e : Hye) : Option Hye :=
